@@ -77,4 +77,52 @@ def dateFill (step : Int) : Nat → Int → Int → Nat → Option DateOut
       else dateFill step n (cur + step) stop (k + 1)
     else some (.past k)
 
+/-! ### `bucket_start` of the date histogram (fixed step)
+
+```
+// since d7457e1                                         // before
+let bucket = (value.checked_sub(offset)? as f64          let bucket = ((value - offset) as f64
+              / step as f64).ceil() as i64;                            / step as f64).ceil() as i64;
+bucket.checked_mul(step)?.checked_add(offset)            Some(bucket.saturating_mul(step) + offset)
+```
+The float step (`as f64`, division, `ceil`, saturating `as i64`) is the parameter `q`; its
+result is clamped to the `i64` range like the cast does. -/
+
+def clamp (x : Int) : Int := if x < i64Min then i64Min else if x > i64Max then i64Max else x
+
+def checked (x : Int) : Option Int := if inI64 x then some x else none
+
+/-- `bucket_start(value, offset, Fixed(step))` as it is now: `none` = the value has no bucket -/
+def bucketStart (q : Int → Int → Int) (value offset step : Int) : Option Int :=
+  match checked (value - offset) with
+  | none => none
+  | some d =>
+    match checked (clamp (q d step) * step) with
+    | none => none
+    | some p => checked (p + offset)
+
+/-- outcome of the original `bucket_start` -/
+inductive LegacyStart where
+  | key (k : Int)
+  | subOverflow      -- `value - offset`: attempt to subtract with overflow
+  | addOverflow      -- `… + offset`: attempt to add with overflow
+deriving Repr, DecidableEq
+
+/-- the original: unchecked subtraction, saturating product, unchecked addition -/
+def legacyBucketStart (q : Int → Int → Int) (value offset step : Int) : LegacyStart :=
+  if !inI64 (value - offset) then .subOverflow
+  else
+    let p := clamp (clamp (q (value - offset) step) * step)
+    if !inI64 (p + offset) then .addOverflow else .key (p + offset)
+
+/-- exact ceiling division (what the float step computes up to rounding), for the witnesses -/
+def ceilDiv (d step : Int) : Int := if step ≤ 0 then 0 else (d + step - 1) / step
+
+/-- the fill of `DateHistogramCollector::finish`: only when both bounds have a bucket; the ends
+are ordered first; `none` = no fill at all -/
+def dateFinish (q : Int → Int → Int) (step offset lo hi : Int) (fuel : Nat) : Option (Option DateOut) :=
+  match bucketStart q lo offset step, bucketStart q hi offset step with
+  | some a, some b => some (dateFill step fuel (min a b) (max a b) 0)
+  | _, _ => none
+
 end SL.HistFill
